@@ -99,7 +99,9 @@ class SpecRT:
         if name == 'old':
             if ex.spec_mode == 'pre' or ex.spec_pre is None:
                 return ex.ev(e.args[0], st, fr)
-            pre = ex.spec_pre
+            # evaluate in the pre-state heap with the *current* local names; on a fork, so that the pre-state snapshot
+            # itself is never changed (it is shared: a loop's entry state serves every old() of its invariants)
+            pre = ex.spec_pre.fork()
             pre.envs[fr.fid] = st.envs[fr.fid]
             f = fr
             while f is not None and f.parent_fid:
@@ -508,6 +510,10 @@ class SpecRT:
             elif m[0] == 'all':
                 _, cq, fld = m
                 kind = self.field_kind(cq, fld)
-                st.heap.pop((cq, fld), None)
-                st.heap.pop((cq, fld + '?'), None)
-                self.heap_array(st, cq, fld, kind)
+                # every object's field may have changed: a FRESH array (the initial array has a deterministic name, so
+                # re-creating it would reset the field to its initial contents instead of havocking it)
+                cur = self.heap_array(st, cq, fld, kind)
+                tagn = '%s_%s' % (cq.rsplit('.', 1)[-1], fld)
+                st.heap[(cq, fld)] = z3.Const(fresh_name('Hm_' + tagn), cur.sort())
+                if (cq, fld + '?') in st.heap:
+                    st.heap[(cq, fld + '?')] = z3.Const(fresh_name('Hm_' + tagn + '_none'), st.heap[(cq, fld + '?')].sort())
